@@ -13,7 +13,7 @@ package ext
 // chunked stream (chunkEOF, which makes skipRest a no-op) may only be set then.
 //@ ghost var rdTrailerOK bool
 //@ func bodyStream.Read(rs, p) n, err
-//@   props C14, C11
+//@   props C14, C11, C01
 //@   nosafety
 //@   replay-import errors
 //@   replay-import github.com/cloudwego/hertz/pkg/common/bytebufferpool
@@ -73,7 +73,7 @@ package ext
 // wire, so the next request starts at the first byte after the body. Chunked: a chunk-size line is only
 // parsed when no chunk data is pending.
 //@ func bodyStream.skipRest(rs) err
-//@   props C14, C11
+//@   props C14, C11, C01
 //@   nosafety
 //@   replay-import errors
 //@   replay-import github.com/cloudwego/hertz/pkg/common/bytebufferpool
